@@ -328,7 +328,7 @@ func (v *parser_) parseCollection() (
 	case "Queue":
 		collection = col.Queue[any](notation).MakeFromSequence(sequence)
 	case "Set":
-		collection = col.Set[any](notation).MakeFromSequence(sequence)
+		collection = v.asSet(sequence, token)
 	case "Stack":
 		collection = col.Stack[any](notation).MakeFromSequence(sequence)
 	default:
@@ -356,6 +356,29 @@ func (v *parser_) asAssociation(
 		panic(message)
 	}
 	return association
+}
+
+// This private instance method makes a set from the specified sequence of
+// values.  A set orders its members with a collator whose traversal depth is
+// limited, so members that are nested too deeply cannot be ordered; that is
+// reported as a syntax error at the token naming the type.
+func (v *parser_) asSet(
+	sequence col.Sequential[any],
+	token TokenLike,
+) (set col.SetLike[any]) {
+	defer func() {
+		if e := recover(); e != nil {
+			var message = v.formatError(token)
+			message += v.generateSyntax("Value",
+				"Values",
+				"Value",
+			)
+			message += fmt.Sprintf("The members of the set cannot be ordered: %v\n", e)
+			panic(message)
+		}
+	}()
+	var notation = Notation().Make()
+	return col.Set[any](notation).MakeFromSequence(sequence)
 }
 
 func (v *parser_) parseContext() (
